@@ -237,12 +237,17 @@ fn all_unary_ops() -> Vec<Op> {
 /// A chain of `depth` stages over hot inputs; `k` arbitrary events (any kind, any
 /// input, also after terminals, terminals through cloned handles).
 fn hot_chain(mode: Mode, depth: usize, k: usize, binary: bool) {
+  hot_chain_x(mode, depth, k, binary, false)
+}
+
+/// `last_binary`: the last stage is always a two-input operator (a third party can end the stream)
+fn hot_chain_x(mode: Mode, depth: usize, k: usize, binary: bool, last_binary: bool) {
   let unary = all_unary_ops();
   let mut stages: Vec<Stage> = vec![];
   let mut tags: Vec<usize> = vec![0];
   for i in 0..depth {
     let nb = if binary { OPS2.len() * 2 } else { 0 };
-    let c = e::choose((unary.len() + nb) as u32) as usize;
+    let c = if last_binary && i + 1 == depth { unary.len() + e::choose(nb as u32) as usize } else { e::choose((unary.len() + nb) as u32) as usize };
     if c < unary.len() {
       let op = unary[c];
       stages.push(Stage::U(op, draw_params(op, k as u32, 10 + i)));
@@ -692,6 +697,7 @@ pub fn harnesses() -> Vec<HarnessDef> {
   add("c16_finished", vec!["C16"], "forwarding obligation: once the subscriber has terminated, every hot producer handle (main and notifier positions) sees is_finished() == true",
     |t| format!("depth {}; {} events", if t { 2 } else { 1 }, 4),
     Box::new(|t| hot_chain(Mode::Finished, if t { 2 } else { 1 }, 4, true)), 600_000, 40_000_000, true);
+  add("c16_finished_d2", vec!["C16"], "forwarding obligation through two stages where the second is a two-input operator (a notifier or sibling input can end the stream before the first stage has seen an item)", |_| "depth 2 (any stage, then a two-input stage); 4 events".to_string(), Box::new(|_| hot_chain_x(Mode::Finished, 2, 4, true, true)), 700_000, 40_000_000, true);
   add("c13_chain", vec!["C13"], "cold chains: nothing runs at build time; three subscriptions of clones (sequential and nested) each reproduce the oracle; source runs once per subscription",
     |t| format!("depth {}; scripts of <= {} items", if t { 2 } else { 1 }, if t { 3 } else { 3 }),
     Box::new(|t| c13_chain(if t { 2 } else { 1 }, 3)), 400_000, 20_000_000, true);
